@@ -92,8 +92,49 @@ func closureOf(v ssa.Value) *ssa.Function {
 				return closureOf(w)
 			}
 		}
+		// load of a captured variable holding a closure (a closure calling a sibling closure)
+		if fv, ok := x.X.(*ssa.FreeVar); ok {
+			if a, ok := freeVarBinding(fv).(*ssa.Alloc); ok {
+				if w := wholeStore(a); w != nil {
+					return closureOf(w)
+				}
+			}
+		}
+	case *ssa.FreeVar:
+		if b := freeVarBinding(x); b != nil {
+			return closureOf(b)
+		}
 	}
 	return nil
+}
+
+// freeVarBinding: the value bound to fv by the (single) MakeClosure that creates fv's function.
+func freeVarBinding(fv *ssa.FreeVar) ssa.Value {
+	fn := fv.Parent()
+	parent := fn.Parent()
+	if parent == nil {
+		return nil
+	}
+	idx := -1
+	for i, v := range fn.FreeVars {
+		if v == fv {
+			idx = i
+		}
+	}
+	var found ssa.Value
+	n := 0
+	for _, b := range parent.Blocks {
+		for _, in := range b.Instrs {
+			if mc, ok := in.(*ssa.MakeClosure); ok && mc.Fn == ssa.Value(fn) && idx >= 0 && idx < len(mc.Bindings) {
+				found = mc.Bindings[idx]
+				n++
+			}
+		}
+	}
+	if n != 1 {
+		return nil
+	}
+	return found
 }
 
 func checkC09(c *Ctx) {
@@ -789,9 +830,112 @@ func isErrorType(t types.Type) bool {
 	return ok && n.Obj().Pkg() == nil && n.Obj().Name() == "error"
 }
 
-// errorFallbacks: failure edges that legitimately continue (reviewed, one line of reason each).
-var errorFallbacks = map[string]string{
-	"config.ParseData/strconv.Atoi#2": "`note` is tried as a number first; on failure it is tried as a note name (StringToNote), whose error is returned",
+// A failure edge may legitimately continue when the same input is validated again by a second fallible call whose
+// own failure is returned ("try as a number, else as a note name"): revalidationEdges finds, for a failed call, the
+// success edges of later error tests of calls that take the failed call's operand; a success return reachable from
+// the failure edge only through such an edge is not "accepting a malformed value silently".
+func revalidationEdges(fn *ssa.Function, failed *ssa.Call) map[[2]*ssa.BasicBlock]string {
+	out := map[[2]*ssa.BasicBlock]string{}
+	if len(failed.Call.Args) == 0 {
+		return out
+	}
+	same := func(a, b ssa.Value) bool {
+		if a == b {
+			return true
+		}
+		// two loads of the same local / the same phi
+		ua, ok1 := a.(*ssa.UnOp)
+		ub, ok2 := b.(*ssa.UnOp)
+		return ok1 && ok2 && ua.Op == token.MUL && ub.Op == token.MUL && ua.X == ub.X
+	}
+	for _, b := range fn.Blocks {
+		for _, in := range b.Instrs {
+			call, ok := in.(*ssa.Call)
+			if !ok || call == failed || len(call.Call.Args) == 0 {
+				continue
+			}
+			res := call.Call.Signature().Results()
+			if res.Len() < 2 || !isErrorType(res.At(res.Len()-1).Type()) {
+				continue
+			}
+			shares := false
+			for _, a := range call.Call.Args {
+				for _, fa := range failed.Call.Args {
+					if same(a, fa) {
+						shares = true
+					}
+				}
+			}
+			if !shares || call.Referrers() == nil {
+				continue
+			}
+			name := "call"
+			if callee := call.Call.StaticCallee(); callee != nil {
+				name = callee.Name()
+			}
+			for _, r := range *call.Referrers() {
+				ex, ok := r.(*ssa.Extract)
+				if !ok || ex.Index != res.Len()-1 || ex.Referrers() == nil {
+					continue
+				}
+				for _, rr := range *ex.Referrers() {
+					bo, ok := rr.(*ssa.BinOp)
+					if !ok || (bo.Op != token.EQL && bo.Op != token.NEQ) || bo.Referrers() == nil {
+						continue
+					}
+					if k, isK := bo.Y.(*ssa.Const); !isK || k.Value != nil {
+						continue
+					}
+					for _, r3 := range *bo.Referrers() {
+						if ifi, ok := r3.(*ssa.If); ok {
+							succ := ifi.Block().Succs[0] // err == nil taken
+							if bo.Op == token.NEQ {
+								succ = ifi.Block().Succs[1]
+							}
+							out[[2]*ssa.BasicBlock{ifi.Block(), succ}] = name
+						}
+					}
+				}
+			}
+		}
+	}
+	return out
+}
+
+// reachableAvoiding: blocks reachable from start without passing through stop and without taking the given edges.
+func reachableAvoiding(start, stop *ssa.BasicBlock, avoid map[[2]*ssa.BasicBlock]string) map[*ssa.BasicBlock]bool {
+	seen := map[*ssa.BasicBlock]bool{}
+	stack := []*ssa.BasicBlock{start}
+	for len(stack) > 0 {
+		b := stack[len(stack)-1]
+		stack = stack[:len(stack)-1]
+		if seen[b] || b == stop {
+			continue
+		}
+		seen[b] = true
+		for _, s := range b.Succs {
+			if _, skip := avoid[[2]*ssa.BasicBlock{b, s}]; skip {
+				continue
+			}
+			stack = append(stack, s)
+		}
+	}
+	return seen
+}
+
+// ruleErrorsReturnedAs runs R9.8 on fns and files the obligations under another rule id (properties that depend on
+// "a failed conversion/decoding is a rejection" as a necessary condition).
+func ruleErrorsReturnedAs(c *Ctx, fns []*ssa.Function, rule string, skip func(key string) bool) {
+	sub := NewCtx(c.P, c.Property, c.Tier)
+	ruleErrorsReturned(sub, fns)
+	for _, o := range sub.Obs {
+		if skip != nil && skip(o.Key) {
+			continue
+		}
+		o.Rule = rule
+		c.Obs = append(c.Obs, o)
+		c.Counts[rule]++
+	}
 }
 
 func ruleErrorsReturned(c *Ctx, fns []*ssa.Function) {
@@ -923,8 +1067,27 @@ func ruleErrorsReturned(c *Ctx, fns []*ssa.Function) {
 					}
 				}
 				if bad != "" {
-					if reason, ok := errorFallbacks[key]; ok {
-						c.OK("R9.8", key, pos, "reviewed fallback: "+reason)
+					// fallback: the same operand is validated again by another fallible call
+					reval := revalidationEdges(fn, call)
+					still := false
+					var via string
+					for _, v := range reval {
+						via = v
+					}
+					for i, ifi := range ifs {
+						fail := ifi.Block().Succs[1]
+						if polarity[i] {
+							fail = ifi.Block().Succs[0]
+						}
+						reach := reachableAvoiding(fail, ifi.Block(), reval)
+						for _, s := range success {
+							if reach[s] {
+								still = true
+							}
+						}
+					}
+					if len(reval) > 0 && !still {
+						c.OK("R9.8", key, pos, "fallback: after "+name+" failed the same operand is validated by "+via+", and a success return is reachable only through that call succeeding")
 					} else {
 						c.Bad("R9.8", key, pos, bad+": a malformed value would be accepted silently")
 					}
